@@ -84,7 +84,9 @@ def run(ctx):
     reqs = ["dismain " + r.split(" ")[1] for r in reqs]
     hostile, stats = c04.hostile_requests(TG, rnd, "quick" if ctx.tier == "quick" else "thorough", channels=("dismain",))
     if ctx.tier == "quick":
-        hostile = hostile[::3]
+        # the bulk (mutants of seeded modules, structural words) is sampled; the deterministic families are kept whole
+        k = stats.get("_families_from", len(hostile))
+        hostile = hostile[:k:3] + hostile[k:]
     reqs += hostile
     datas = [bytes.fromhex(r.split(" ")[1]) if r.split(" ")[1] != "-" else b"" for r in reqs]
     results = run_binary(datas)
